@@ -461,6 +461,12 @@ func VerifyBlob(ctx context.Context, blobVerifier BlobVerifier, blobReader io.Re
 		return ocispec.Descriptor{}, nil, err
 	}
 
+	if vo.EnvelopeContent == nil {
+		// the applicable trust policy statement skips signature verification:
+		// there is no verified payload to read the descriptor from
+		return ocispec.Descriptor{}, vo, nil
+	}
+
 	var payload envelope.Payload
 	if err = json.Unmarshal(vo.EnvelopeContent.Payload.Content, &payload); err != nil {
 		return ocispec.Descriptor{}, nil, err
